@@ -15,6 +15,7 @@
     for ALL arguments of the Rust types; each says [= Val ...], so no operation traps. *)
 From Coq Require Import ZArith List Bool.
 From V Require Import Base.Int Base.IO Base.Table Gen.DateTables Model.Date Model.C01 Judge.C01 Spec.Gregorian Proofs.C01 Proofs.C01Holds.
+From V Require Model.C01b Judge.C01b Model.Time Proofs.C01b.
 Import ListNotations.
 Open Scope Z_scope.
 
@@ -181,6 +182,89 @@ Theorem C01_range_checksum : forall lo hi, i32_min < lo -> lo <= hi -> hi < i32_
   Model.C01.d_range lo hi = Val (Judge.C01.exp_range lo hi).
 Proof. exact d_range_spec. Qed.
 Print Assumptions C01_range_checksum.
+
+(** ** 9. The surface added next to the frozen dispatcher (Model/C01b.v, Judge/C01b.v: ops d.pymd d.pyo
+    d.pisoywd d.pdays d.psucc d.ppred d.acc2).  The deprecated panicking twins [from_ymd], [from_yo],
+    [from_isoywd], [from_num_days_from_ce], [succ], [pred] are [expect] of the checked forms
+    ([unwrap_r] = the Rust [expect]): for ALL arguments of the Rust types they return the value of the
+    checked form and panic exactly where it is [None] ([date_or_panic b d] = [Val d] if [b], else
+    [Panic]; the conditions are those of theorems 1-4 and 8). *)
+Theorem C01_from_ymd_panicking : forall y m dd, in_i32 y = true -> in_u32 m = true -> in_u32 dd = true ->
+  unwrap_r (from_ymd_opt y m dd) =
+    Proofs.C01b.date_or_panic (year_in_range y && valid_ymd y m dd) (mk_ymd y m dd).
+Proof. exact Proofs.C01b.pymd_spec. Qed.
+Print Assumptions C01_from_ymd_panicking.
+Theorem C01_from_yo_panicking : forall y o, in_i32 y = true -> in_u32 o = true ->
+  unwrap_r (from_yo_opt y o) = Proofs.C01b.date_or_panic (year_in_range y && valid_yo y o) (mkdate y o).
+Proof. exact Proofs.C01b.pyo_spec. Qed.
+Print Assumptions C01_from_yo_panicking.
+Theorem C01_from_isoywd_panicking : forall y w wd, in_i32 y = true -> in_u32 w = true -> 0 <= wd <= 6 ->
+  unwrap_r (from_isoywd_opt y w wd) =
+    Proofs.C01b.date_or_panic (valid_isoywd y w wd && dn_in_range (dn_of_isoywd y w wd))
+                              (date_of_dn (dn_of_isoywd y w wd)).
+Proof. exact Proofs.C01b.pisoywd_spec. Qed.
+Print Assumptions C01_from_isoywd_panicking.
+Theorem C01_from_num_days_from_ce_panicking : forall n, in_i32 n = true ->
+  unwrap_r (from_num_days_from_ce_opt n) = Proofs.C01b.date_or_panic (dn_in_range n) (date_of_dn n).
+Proof. exact Proofs.C01b.pdays_spec. Qed.
+Print Assumptions C01_from_num_days_from_ce_panicking.
+Theorem C01_succ_panicking : forall y o d, repr y o d ->
+  unwrap_r (succ_opt d) =
+    Proofs.C01b.date_or_panic (dn_in_range (dn_of_yo y o + 1)) (date_of_dn (dn_of_yo y o + 1)).
+Proof. exact Proofs.C01b.psucc_spec. Qed.
+Print Assumptions C01_succ_panicking.
+Theorem C01_pred_panicking : forall y o d, repr y o d ->
+  unwrap_r (pred_opt d) =
+    Proofs.C01b.date_or_panic (dn_in_range (dn_of_yo y o - 1)) (date_of_dn (dn_of_yo y o - 1)).
+Proof. exact Proofs.C01b.ppred_spec. Qed.
+Print Assumptions C01_pred_panicking.
+(* ... so succ panics exactly on NaiveDate::MAX and pred exactly on NaiveDate::MIN *)
+Theorem C01_succ_pred_panic_iff_end : forall y o d, repr y o d ->
+  (unwrap_r (succ_opt d) = Panic <-> d = D_MAX) /\ (unwrap_r (pred_opt d) = Panic <-> d = D_MIN).
+Proof. exact Proofs.C01b.psucc_panics_iff_max. Qed.
+Print Assumptions C01_succ_pred_panic_iff_end.
+
+(* [d.acc2]: leap_year() is the Gregorian leap rule of the date's year; iso_week().week0() is the ISO
+   week minus one (no u32 underflow: weeks start at 1); the provided [Datelike::num_days_from_ce]
+   called on [NaiveDateTime::from(date)] (date at midnight: from_hms_opt(0,0,0) never fails) is the
+   date's day number, and [NaiveDate::from] of that date-time is the date itself *)
+Theorem C01_leap_year : forall y o d, repr y o d -> d_leap_year d = is_leap y.
+Proof. exact Proofs.C01b.leap_year_spec. Qed.
+Print Assumptions C01_leap_year.
+Theorem C01_week0 : forall y o d, repr y o d ->
+  (let* iw := d_iso_week d in iw_week0 iw) = Val (snd (iso_of_dn (dn_of_yo y o)) - 1).
+Proof. exact Proofs.C01b.week0_spec. Qed.
+Print Assumptions C01_week0.
+Theorem C01_from_conversions : forall y o d, repr y o d ->
+  unwrap_r (Model.Time.from_hms_opt 0 0 0) = Val (Model.Time.mk_time 0 0) /\
+  datelike_num_days_from_ce (d_year d) (d_ordinal d) = Val (dn_of_yo y o) /\
+  num_days_from_ce d = Val (dn_of_yo y o).
+Proof. exact Proofs.C01b.from_conversions_spec. Qed.
+Print Assumptions C01_from_conversions.
+Theorem C01_acc2 : forall y o d, repr y o d ->
+  Model.C01b.d_acc2 d =
+    Val (VTup [val_of_bool (is_leap y); VInt (snd (iso_of_dn (dn_of_yo y o)) - 1); VInt (dn_of_yo y o);
+               Model.C01.enc_date d]).
+Proof. exact Proofs.C01b.acc2_spec. Qed.
+Print Assumptions C01_acc2.
+
+(* C01_holds for the dispatchers the check actually runs (Extract/C01.v uses the wrappers): on every
+   case line of the wrapper judge's domain - the ten ops of C01_holds and the seven ops above - the
+   judge accepts the model's output *)
+Theorem C01_holds_all_ops : forall op args,
+  Judge.C01b.judge op args (Model.C01b.run op args) <> JSkip ->
+  Judge.C01b.judge op args (Model.C01b.run op args) = JOk.
+Proof. exact Proofs.C01b.C01b_holds. Qed.
+Print Assumptions C01_holds_all_ops.
+
+Example C01_surface_example :
+  repr 2024 60 (mkdate 2024 60) /\
+  Model.C01b.d_acc2 (mkdate 2024 60) = Val (VTup [VInt 1; VInt 8; VInt 738945; VTup [VInt 2024; VInt 60]]) /\
+  unwrap_r (from_ymd_opt 2024 2 30) = Panic /\ unwrap_r (from_ymd_opt 2024 2 29) = Val (mkdate 2024 60) /\
+  repr MAX_YEAR 365 D_MAX /\ unwrap_r (succ_opt D_MAX) = Panic /\
+  repr MIN_YEAR 1 D_MIN /\ unwrap_r (pred_opt D_MIN) = Panic.
+Proof. exact Proofs.C01b.example_acc2. Qed.
+Print Assumptions C01_surface_example.
 
 (** ** The hypotheses are inhabited: 2024-02-29 *)
 Example C01_example : repr 2024 60 (mkdate 2024 60) /\
